@@ -289,21 +289,17 @@ func Main(o Options) {
 		replay(o, scs, cfg, rp)
 		return
 	}
-	if w := argValue("--worker"); w != "" {
-		var i, n int
-		fmt.Sscanf(w, "%d/%d", &i, &n)
+	if w := argValue("--scenario"); w != "" {
+		idx, _ := strconv.Atoi(w)
 		dl, _ := strconv.ParseInt(argValue("--deadline"), 10, 64)
 		if dl > 0 {
 			cfg.Deadline = time.Unix(dl, 0)
 		}
-		enc := json.NewEncoder(os.Stdout)
-		for k, sc := range scs {
-			if k%n != i {
-				continue
-			}
-			st := ExploreScenario(sc, cfg)
-			enc.Encode(st)
+		if idx < 0 || idx >= len(scs) {
+			common.Broken("bad scenario index %d", idx)
 		}
+		st := ExploreScenario(scs[idx], cfg)
+		json.NewEncoder(os.Stdout).Encode(st)
 		return
 	}
 	c := common.New(o.Prop, o.Level)
@@ -322,33 +318,43 @@ func Main(o Options) {
 	var mu sync.Mutex
 	var all []Stats
 	var wg sync.WaitGroup
+	next := 0
 	for i := 0; i < n; i++ {
 		wg.Add(1)
 		go func(i int) {
 			defer wg.Done()
-			cmd := exec.Command(os.Args[0], "--tier", tier, "--worker", fmt.Sprintf("%d/%d", i, n), "--deadline", strconv.FormatInt(deadline.Unix(), 10))
-			cmd.Env = append(os.Environ(), "GOMAXPROCS=2")
-			cmd.Stderr = os.Stderr
-			out, err := cmd.StdoutPipe()
-			if err != nil {
-				common.Broken("worker pipe: %v", err)
-			}
-			if err := cmd.Start(); err != nil {
-				common.Broken("worker start: %v", err)
-			}
-			sc := bufio.NewScanner(out)
-			sc.Buffer(make([]byte, 1<<20), 1<<28)
-			for sc.Scan() {
-				var st Stats
-				if err := json.Unmarshal(sc.Bytes(), &st); err != nil {
-					common.Broken("worker output does not parse: %v: %.200s", err, sc.Text())
-				}
+			for {
 				mu.Lock()
-				all = append(all, st)
+				idx := next
+				next++
 				mu.Unlock()
-			}
-			if err := cmd.Wait(); err != nil {
-				common.Broken("worker %d failed: %v", i, err)
+				if idx >= len(scs) {
+					return
+				}
+				cmd := exec.Command(os.Args[0], "--tier", tier, "--scenario", strconv.Itoa(idx), "--deadline", strconv.FormatInt(deadline.Unix(), 10))
+				cmd.Env = append(os.Environ(), "GOMAXPROCS=2")
+				cmd.Stderr = os.Stderr
+				out, err := cmd.StdoutPipe()
+				if err != nil {
+					common.Broken("worker pipe: %v", err)
+				}
+				if err := cmd.Start(); err != nil {
+					common.Broken("worker start: %v", err)
+				}
+				sc := bufio.NewScanner(out)
+				sc.Buffer(make([]byte, 1<<20), 1<<28)
+				for sc.Scan() {
+					var st Stats
+					if err := json.Unmarshal(sc.Bytes(), &st); err != nil {
+						common.Broken("worker output does not parse: %v: %.200s", err, sc.Text())
+					}
+					mu.Lock()
+					all = append(all, st)
+					mu.Unlock()
+				}
+				if err := cmd.Wait(); err != nil {
+					common.Broken("worker for scenario %d (%s) failed: %v", idx, scs[idx].Name, err)
+				}
 			}
 		}(i)
 	}
